@@ -454,12 +454,12 @@ def rule_m4(ck, prog, S):
     last = lambda who, ln: (lambda i: i.strip_all_casts().src.replace(" ", "") == "%s-1" % ln)
     is0 = lambda i: C.const_of(i) == 0
     is1 = lambda i: C.const_of(i) == 1
-    rets_false = [n for n in f.nodes.values() if n.k == "ReturnStmt" and n.ch and C.const_of(n.child(0)) == 0]
+    # every way of ending with FALSE: `return FALSE`, or a jump to the common exit while the result flag is still FALSE
+    false_exits = [K.facts_at(S, f, None, point=p_) or [] for p_, _n in K.committed_exits(S, f, 0)]
     # '?' agreement
     st = K.site(f, "query-mark-agreement", 0)
     refuse = strip = False
-    for r in rets_false:
-        facts = K.facts_at(S, f, r) or []
+    for facts in false_exits:
         if truth(facts, "pattern_ptr", Q, last("pattern_ptr", "pattern_len")) is True and \
                 truth(facts, "cmd_ptr", Q, last("cmd_ptr", "cmd_len")) is False:
             refuse = True
@@ -485,8 +485,7 @@ def rule_m4(ck, prog, S):
     # leading colon / ':*'
     st = K.site(f, "leading-colon", 0)
     star_refused = False
-    for r in rets_false:
-        facts = K.facts_at(S, f, r) or []
+    for facts in false_exits:
         if truth(facts, "cmd_ptr", COLON, is0) is True and truth(facts, "cmd_ptr", STAR, is1) is True:
             star_refused = True
     skip = False
